@@ -50,6 +50,7 @@ PROBES = [
     "vector_only_vs_tensor_only", "negative_mean_data", "single_row_parts", "rejected_between_accepted",
     "negative_axis", "float32_part", "mean_much_larger_than_std", "nostats_after_aborted_apply", "many_frames_in_one_call",
     "no_stats_single_vector_tensor", "tensor_4d", "apply_vector", "apply_tensor", "no_stats_tensor", "midway_apply",
+    "non_contiguous_part", "apply_non_contiguous", "apply_in_place_non_contiguous_3d", "no_stats_non_contiguous",
 ]
 FAULT_KINDS = ["rejected_wrong_dim", "rejected_empty", "apply_aborted_by_warning"]
 
@@ -83,7 +84,8 @@ def _gen_history(rng, n, d, style):
             form = rng.choice(("md", "dm", "t3"))
         else:
             form = rng.choice(FORMS[1:]) if m > 1 else rng.choice(("vec", "vec", "md", "dm", "t3"))
-        part = {"rows": rows, "form": form, "dtype": rng.choice(("float64", "float64", "float32"))}
+        part = {"rows": rows, "form": form, "dtype": rng.choice(("float64", "float64", "float32")),
+                "layout": rng.choice(LAYOUTS)}
         if form in ("t3", "t4"):
             nd = 3 if form == "t3" else 4
             part["pos"] = rng.randrange(0, nd)  # where the coefficient axis goes
@@ -150,19 +152,49 @@ def generate(rng, tier, k):
         q = {"form": form, "m": rng.randrange(1, 6), "seed": rng.randrange(1 << 30),
              "norm_var": rng.random() < 0.6, "in_place": rng.random() < 0.3,
              "dtype": rng.choice(("float64", "float64", "float32")), "neg_axis": rng.random() < 0.5,
-             "pos": rng.randrange(0, 3), "wrong_dim": rng.random() < 0.1}
+             "pos": rng.randrange(0, 3), "wrong_dim": rng.random() < 0.1,
+             "layout": rng.choice(LAYOUTS), "lead": rng.choice((1, 1, 2, 3))}
         queries.append(q)
     nostats = None
     if rng.random() < 0.5:
         nostats = {"m": rng.randrange(3, 20), "seed": rng.randrange(1 << 30), "norm_var": rng.random() < 0.7,
                    "form": rng.choice(("md", "dm", "t3")), "pos": rng.randrange(0, 3), "neg_axis": rng.random() < 0.5,
-                   "dtype": rng.choice(("float64", "float32")), "abort_first": rng.random() < 0.3}
+                   "dtype": rng.choice(("float64", "float32")), "abort_first": rng.random() < 0.3,
+                   "layout": rng.choice(LAYOUTS), "lead": rng.choice((1, 1, 2, 3))}
         if rng.random() < 0.4:
             nostats["single"] = {"ndim": rng.choice((2, 3)), "pos": rng.randrange(0, 3), "neg_axis": rng.random() < 0.5,
                                  "norm_var": rng.random() < 0.3, "in_place": rng.random() < 0.5,
                                  "dtype": rng.choice(("float64", "float32", "int16"))}
     midway = rng.random() < 0.3
     return {"data": rec, "histories": hist, "queries": queries, "nostats": nostats, "midway": midway}
+
+
+LAYOUTS = ("c", "c", "c", "f", "rev", "gap", "gap0", "t")
+
+
+def _relayout(arr, layout):
+    """Same values, shape and dtype in another memory layout (what slicing / transposing a larger array gives a caller):
+    f = Fortran order, rev = negative stride along the first axis, gap = every other element of the last axis of a
+    wider buffer, gap0 = every other element of the first axis, t = a transposed view of the transposed copy (no two
+    axes can be merged into one)."""
+    if arr.ndim == 0 or arr.size == 0 or layout == "c":
+        return arr
+    if layout == "f":
+        return np.asfortranarray(arr)
+    if layout == "rev":
+        return np.ascontiguousarray(arr[::-1])[::-1]
+    if layout == "gap":
+        big = np.full(arr.shape[:-1] + (2 * arr.shape[-1] + 1,), 7.25, dtype=arr.dtype)
+        big[..., 1::2] = arr
+        return big[..., 1::2]
+    if layout == "gap0":
+        big = np.full((2 * arr.shape[0] + 1,) + arr.shape[1:], -3.5, dtype=arr.dtype)
+        big[1::2] = arr
+        return big[1::2]
+    if layout == "t":
+        axes = tuple(reversed(range(arr.ndim)))
+        return np.ascontiguousarray(arr.transpose(axes)).transpose(axes)
+    raise ValueError(layout)
 
 
 def _shape_part(rows, part, d):
@@ -188,16 +220,17 @@ def _shape_part(rows, part, d):
 def _query_array(q, d, scale, center):
     g = model.np_rng(q["seed"])
     m = int(q["m"])
-    dd = d + (1 if q.get("wrong_dim") else 0)
-    base = np.round(g.standard_normal((m, dd)) * 64) / 64 * scale + center
     form = q["form"]
+    lead = int(q.get("lead", 1)) if form == "t3" else 1
+    dd = d + (1 if q.get("wrong_dim") else 0)
+    base = np.round(g.standard_normal((m * lead, dd)) * 64) / 64 * scale + center
     if form == "vec":
         return base[0].copy(), -1
     if form == "md":
         return base.copy(), (-1 if q.get("neg_axis") else 1)
     if form == "dm":
         return np.ascontiguousarray(base.T), (-2 if q.get("neg_axis") else 0)
-    t = base.reshape(1, m, dd)
+    t = base.reshape(lead, m, dd)
     pos = q["pos"] % 3
     t = np.ascontiguousarray(np.moveaxis(t, -1, pos))
     return t, (pos - 3 if q.get("neg_axis") else pos)
@@ -316,7 +349,9 @@ def execute(scn, keep_trace=False):
                 continue
             rows = X[part["rows"]]
             arr, ax = _shape_part(rows, part, d)
-            arr = arr.astype(part.get("dtype", "float64"))
+            arr = _relayout(arr.astype(part.get("dtype", "float64")), part.get("layout", "c"))
+            if not arr.flags.c_contiguous:
+                res.probe("non_contiguous_part")
             if part.get("dtype") == "float32":
                 res.probe("float32_part")
                 rows = arr.astype(np.float64)  # what was actually delivered
@@ -444,11 +479,15 @@ def _check_query(a, b, mdl, q, d, scale_data, X, exact, res, tr, facts, outs):
     inst = a if q.get("norm_var", True) else b
     center = float(X.mean())
     arr, ax = _query_array(q, d, scale_data / 4.0 if exact else float(X.std()) or 1.0, round(center))
-    arr = arr.astype(q.get("dtype", "float64"))
+    arr = _relayout(arr.astype(q.get("dtype", "float64")), q.get("layout", "c"))
     if arr.ndim == 1:
         res.probe("apply_vector")
     else:
         res.probe("apply_tensor")
+    if not arr.flags.c_contiguous:
+        res.probe("apply_non_contiguous")
+        if arr.ndim == 3 and q.get("in_place"):
+            res.probe("apply_in_place_non_contiguous_3d")
     inp = arr.copy()
     in_place = bool(q.get("in_place"))
     if not in_place:
@@ -523,11 +562,16 @@ def _check_nostats(ns, d, res, tr, facts):
     elif form == "dm":
         arr, ax = np.ascontiguousarray(base.T), (-2 if ns.get("neg_axis") else 0)
     else:
-        t = base.reshape(1, m, d)
+        lead = int(ns.get("lead", 1))
+        if m % lead:
+            lead = 1
+        t = base.reshape(lead, m // lead, d)
         pos = ns.get("pos", 0) % 3
         arr = np.ascontiguousarray(np.moveaxis(t, -1, pos))
         ax = pos - 3 if ns.get("neg_axis") else pos
-    arr = arr.astype(ns.get("dtype", "float64"))
+    arr = _relayout(arr.astype(ns.get("dtype", "float64")), ns.get("layout", "c"))
+    if not arr.flags.c_contiguous:
+        res.probe("no_stats_non_contiguous")
     inp = arr.copy()
     arr.flags.writeable = False
     res.probe("no_stats_tensor")
@@ -640,4 +684,20 @@ def minimise(scn, test, budget):
             return c
         parts = shrink.ddmin_list(scn["histories"][hi], lambda l: test(with_parts(l)), budget)
         scn = with_parts(parts)
+    # plain memory layout, plain dtype where the violation does not need them
+    def items(c):
+        for h in c["histories"]:
+            for part in h:
+                yield part
+        for q in c["queries"]:
+            yield q
+        if c.get("nostats"):
+            yield c["nostats"]
+    for i, it in enumerate(list(items(scn))):
+        for key, val in (("layout", "c"), ("lead", 1), ("dtype", "float64")):
+            if it.get(key, val) != val and "reject" not in it:
+                c = copy.deepcopy(scn)
+                list(items(c))[i][key] = val
+                if budget.take() and test(c):
+                    scn = c
     return scn
